@@ -381,3 +381,40 @@ def run(eng: Engine, ck: Check):
             into_slot, as_task = flows_into_slot(eng, caller, call, slots)
             ck.ob('R-C06-OWNERS', caller, call, f'{f.name} runs only as a task whose handle is stored in a task slot of the transfer',
                   into_slot, f'started by `{unparse(st)[:70]}` ({how})', construct=f'{caller.qualname} starts {f.name}')
+    from . import defs as _defs_c
+    _defs_c.cancellation_propagates(eng, ck, 'R-C06-CANCEL-ALL', 'abort / pause / remove end the attempts of a transfer by cancelling them')
+    # the negotiation task of a transfer awaits Network.create_peer_connection; in race mode that starts two attempt tasks of its own:
+    # cancelling the negotiation must end them too
+    from .c11 import race_attempts_rule
+    race_attempts_rule(eng, ck, 'R-C06-CANCEL-ALL')
+
+    # ---- R-C06-ACCEPTED: a negotiation started from a MESSAGE HANDLER acts only if the state machine accepted it
+    # The scheduler starts its attempts synchronously for transfers it has just selected; a message handler (`_on_peer_transfer_request`)
+    # starts one whenever the message arrives -- also while abort() / pause() holds the state lock and is still awaiting the tasks it
+    # cancelled (the download is QUEUED and has an empty slot all that time).  Such a task was not among the cancelled ones; its
+    # `state.initialize()` waits for the lock and is then REFUSED by the new state.  The refusal must stop it.
+    mt_ = eng.func(TM, 'TransferManager.manage_transfers')
+    n_acc = 0
+    for q in NEGOTIATORS:
+        f = eng.func(TM, q)
+        from_handler = [c_ for c_, _x, how_ in eng.res.callers_of(f) if how_ == 'call' and c_ is not mt_]
+        inits = [x for x in calls_in(f.node) if call_name(x) == 'initialize' and isinstance(x.func, ast.Attribute) and mentions_attr(x.func.value, 'state')]
+        if not from_handler or not inits:
+            continue
+        n_acc += 1
+        ck.visited(f)
+        tp_ = [p_ for p_ in f.params if p_ != 'self'][0]
+        effects = [n for n in walk_local(f.node) if (isinstance(n, ast.Assign) and any(isinstance(t, ast.Attribute) and unparse(t.value) == tp_ for t in n.targets)) or
+                   (isinstance(n, ast.Call) and call_name(n) in ('send_message', 'send_peer_messages', 'queue_message', 'queue_messages'))]
+        unguarded = []
+        for n in effects:
+            gs = expanded_guards(eng, f, n)
+            if not any(pol and any(isinstance(y, ast.Call) and call_name(y) == 'initialize' for y in ast.walk(e)) for e, pol, _ in gs):
+                unguarded.append(n)
+        ck.ob('R-C06-ACCEPTED', f, inits[0], f'{f.name} (started by {sorted({c_.name for c_ in from_handler})}) goes on only if `state.initialize()` accepted: every message '
+              'it sends and every field it writes is control dependent on the accepted result', not unguarded,
+              (f'the result of `{unparse(inits[0])}` is ignored; `{unparse(unguarded[0])[:60]}` (line {unguarded[0].lineno}) runs also after a refusal: a request accepted while '
+               'abort()/pause() was awaiting the cancelled remote-queue attempt is answered with PeerTransferReply(allowed=True) and downloaded after the call returned')
+              if unguarded else '', construct=f'{f.name} proceeds only if accepted')
+    ck.floor('R-C06-ACCEPTED', n_acc, 1)
+
